@@ -47,6 +47,10 @@ type c16Workload struct {
 	assetID map[string]uint64
 	// probes
 	epochSeen map[string]rewardstypes.EpochInfo
+	seenMax   map[string]uint64
+	// breadth (c16_breadth_test.go)
+	limitBids []c16LimitBid
+	total     int // number of blocks of the run (0 = open-ended: no emergency shutdown)
 }
 
 type c16Pair struct {
@@ -57,7 +61,7 @@ type c16Pair struct {
 }
 
 func c16NewWorkload(in *c16Inst, seed uint64, thor bool) *c16Workload {
-	return &c16Workload{in: in, rng: NewRng(seed), thor: thor, price: map[uint64]uint64{}, assetID: map[string]uint64{}, epochSeen: map[string]rewardstypes.EpochInfo{}}
+	return &c16Workload{in: in, rng: NewRng(seed), thor: thor, price: map[uint64]uint64{}, assetID: map[string]uint64{}, epochSeen: map[string]rewardstypes.EpochInfo{}, seenMax: map[string]uint64{}}
 }
 
 // blockGap: seconds between blocks; every 8th block a day passes (epochs, gauges, reward distribution, interest);
@@ -95,6 +99,57 @@ func (w *c16Workload) probe(b int) {
 	}
 	if w.isHalt(b) {
 		in.stats["chain-halt-blocks"]++
+	}
+	// new objects created by begin / end blockers and handlers, by their highest id / count
+	grow := func(key string, n uint64) {
+		if n > w.seenMax[key] {
+			in.stats["unit:"+key] += int(n - w.seenMax[key])
+			w.seenMax[key] = n
+		}
+	}
+	var maxAuc uint64
+	for _, a := range in.app.NewaucKeeper.GetAuctions(ctx) {
+		if a.AuctionId > maxAuc {
+			maxAuc = a.AuctionId
+		}
+	}
+	grow("auctionsV2-auction-started", maxAuc)
+	var maxLv uint64
+	for _, lv := range in.app.NewliqKeeper.GetLockedVaults(ctx) {
+		if lv.LockedVaultId > maxLv {
+			maxLv = lv.LockedVaultId
+		}
+	}
+	grow("liquidationsV2-locked-vault", maxLv)
+	grow("liquidationV1-locked-vault", uint64(len(in.app.LiquidationKeeper.GetLockedVaults(ctx))))
+	var trig, extEpochs uint64
+	for _, g := range in.app.Rewardskeeper.GetAllGauges(ctx) {
+		trig += g.TriggeredCount
+	}
+	grow("rewards-gauge-distribution", trig)
+	for id := uint64(1); id <= in.app.Rewardskeeper.GetEpochTimeID(ctx); id++ {
+		if e, ok := in.app.Rewardskeeper.GetEpochTime(ctx, id); ok {
+			extEpochs += e.Count
+		}
+	}
+	grow("rewards-external-programme-day", extEpochs)
+	if st, ok := in.app.EsmKeeper.GetESMStatus(ctx, c16AppHarbor); ok && st.Status {
+		in.stats["unit:esm-active-block"]++
+		if st.SnapshotStatus {
+			in.stats["unit:esm-snapshot-taken-block"]++
+		}
+		if st.VaultRedemptionStatus {
+			in.stats["unit:esm-vault-redemption-set-up-block"]++
+		}
+	}
+	inactive := 0
+	for _, t := range in.app.MarketKeeper.GetAllTwa(ctx) {
+		if !t.IsPriceActive {
+			inactive++
+		}
+	}
+	if inactive > 0 {
+		in.stats["unit:market-prices-inactive-block"]++
 	}
 }
 
@@ -156,6 +211,9 @@ func (w *c16Workload) block(b int) {
 		w.fixtureVaultLocker()
 	case 2:
 		w.fixtureLend()
+		if w.variant == 0 {
+			w.breadthFixture()
+		}
 	default:
 		w.oracleStep(b)
 		if b == 3 {
@@ -165,6 +223,7 @@ func (w *c16Workload) block(b int) {
 		w.vaultLockerStep(b)
 		w.lendStep(b)
 		w.liquidationAuctionStep(b)
+		w.breadthStep(b)
 	}
 }
 
@@ -401,7 +460,7 @@ func (w *c16Workload) fixtureLend() {
 		in.tx(whale, "lend.lend", lendtypes.NewMsgLend(w.addr(whale).String(), x.asset, sdk.NewCoin(x.denom, sdk.NewInt(20_000_000_000)), x.pool, c16AppLend))
 	}
 	in.tx(whale, "rewards.ext-lend", &rewardstypes.ActivateExternalRewardsLend{AppMappingId: c16AppLend, CPoolId: 1, AssetId: []uint64{aCMDX, aCMST}, CSwapAppId: c16AppSwap,
-		CSwapMinLockAmount: 0, TotalRewards: sdk.NewCoin("uharbor", sdk.NewInt(50_000_000)), MasterPoolId: 1, DurationDays: 5, MinLockupTimeSeconds: 1, Depositor: w.addr(whale).String()})
+		CSwapMinLockAmount: 0, TotalRewards: sdk.NewCoin("uharbor", sdk.NewInt(50_000_000)), MasterPoolId: 2, DurationDays: 5, MinLockupTimeSeconds: 1, Depositor: w.addr(whale).String()})
 }
 
 // ---------------------------------------------------------------------------------------------------------------
@@ -585,8 +644,10 @@ func (w *c16Workload) twinPositions() {
 func (w *c16Workload) vaultLockerStep(b int) {
 	in := w.in
 	vk := in.app.VaultKeeper
-	if b == 6 || b == 30 {
-		// needs the app's vault mapping, i.e. at least one vault
+	if b == 3 || b == 30 {
+		// needs the app's vault mapping, i.e. at least one vault (twinPositions, block 3) — and NO vault of another extended
+		// pair of the app yet (x/rewards/keeper/keeper.go:184-188 rejects the request as soon as the app has a vault of any other
+		// pair: the stable-mint vault of breadthStep is opened later in block 3; the request of block 30 is rejected)
 		in.tx(0, "rewards.ext-vault", rewardstypes.NewMsgActivateExternalRewardsVault(c16AppHarbor, 1, sdk.NewCoin("uharbor", sdk.NewInt(50_000_000)), 5, 1, w.addr(0)))
 	}
 	n := 1 + w.rng.Intn(3)
@@ -745,10 +806,6 @@ func (w *c16Workload) liquidationAuctionStep(b int) {
 		if amt.IsPositive() {
 			in.tx(who, "auctionsV2.market-bid", aucv2types.NewMsgPlaceMarketBid(w.addr(who).String(), a.AuctionId, sdk.NewCoin(a.DebtToken.Denom, amt)))
 		}
-	}
-	if b%9 == 4 {
-		who := w.user()
-		in.tx(who, "auctionsV2.limit-bid", aucv2types.NewMsgDepositLimitBid(w.addr(who).String(), 1, 2, sdk.NewInt(int64(5+w.rng.Intn(10))), sdk.NewCoin("ucmst", sdk.NewInt(int64(5_000_000+w.rng.Intn(20_000_000))))))
 	}
 }
 
